@@ -1750,6 +1750,10 @@ def replay(ctx, payload):
         print(det[-1800:])
         print("oracle:", v)
         return 1 if v else 0
+    if inp.get("stream") in ("dp_events", "dp_values", "dp_explore"):
+        dp = next((m for m in SUBS if m.__name__ == "c11_dataparser" and hasattr(m, "replay_doc")), None)
+        if dp is not None:
+            return dp.replay_doc(ctx, inp)
     if doc is None:
         print(json.dumps(payload.get("no_longer_checks"), indent=1)[:4000])
         return 0
